@@ -2779,7 +2779,6 @@ pub open spec fn is_subscribe_of(pk: MqttPacket, p: SubscribePacket) -> bool { p
 #[verifier::external_body] pub fn write_unsuback_encoding_steps311(packet: &UnsubackPacket, context: &EncodingContext, steps: &mut VecDeque<EncodingStep>) -> GneissResult<()> { unimplemented!() }
 #[verifier::external_body] pub fn write_pingresp_encoding_steps(packet: &PingrespPacket, context: &EncodingContext, steps: &mut VecDeque<EncodingStep>) -> GneissResult<()> { unimplemented!() }
 #[verifier::external_body] pub fn write_auth_encoding_steps311(packet: &AuthPacket, context: &EncodingContext, steps: &mut VecDeque<EncodingStep>) -> GneissResult<()> { unimplemented!() }
-#[verifier::external_body] pub fn write_encoding_steps5(mqtt_packet: &MqttPacket, context: &EncodingContext, steps: &mut VecDeque<EncodingStep>) -> GneissResult<()> { unimplemented!() }
 
 // what a 3.1.1 client packet looks like on the wire (None: not specified here)
 pub open spec fn wire311(pk: MqttPacket) -> Option<Seq<u8>> {
@@ -2814,20 +2813,6 @@ pub open spec fn sendable311(pk: MqttPacket) -> bool {
         (wire311(*mqtt_packet) is Some && steps_wf(old(steps)@, *mqtt_packet)) ==> steps_wf(final(steps)@, *mqtt_packet),
 //@end
 
-impl Encoder {
-//@fn gneiss-mqtt/src/encode.rs Encoder::reset props=C02,C13
-    requires context.protocol_version == ProtocolVersion::Mqtt311 ==> sendable311(*packet),
-    ensures
-        // MQTT 3.1.1: the pending steps denote exactly the packet's wire image - with Encoder::encode, that is what the transport is handed
-        (context.protocol_version == ProtocolVersion::Mqtt311 && wire311(*packet) is Some) ==> {
-            &&& r is Ok
-            &&& flat(final(self).steps@, *packet) == wire311(*packet)->Some_0
-            &&& steps_wf(final(self).steps@, *packet)
-        },
-//@@at after "self.steps.clear();"
-        proof { assert(flat(self.steps@, *packet) =~= Seq::<u8>::empty()); }
-//@end
-}
 
 
 // ---------------------------------------------------------------------------------------------------------------------------------
@@ -3262,6 +3247,63 @@ pub proof fn lemma_assoc_publish5(f: Seq<u8>, v1: Seq<u8>, top: Seq<u8>, idp: Se
         assert(acc == publish5_bytes(*packet, res));
     }
 //@end
+
+
+// ---- MQTT 5 dispatch: PUBLISH and PINGREQ are under contract; the other writers are signature-only stubs with NO postcondition
+#[verifier::external_body] pub fn write_connect_encoding_steps5(packet: &ConnectPacket, context: &EncodingContext, steps: &mut VecDeque<EncodingStep>) -> GneissResult<()> { unimplemented!() }
+#[verifier::external_body] pub fn write_connack_encoding_steps5(packet: &ConnackPacket, context: &EncodingContext, steps: &mut VecDeque<EncodingStep>) -> GneissResult<()> { unimplemented!() }
+#[verifier::external_body] pub fn write_puback_encoding_steps5(packet: &PubackPacket, context: &EncodingContext, steps: &mut VecDeque<EncodingStep>) -> GneissResult<()> { unimplemented!() }
+#[verifier::external_body] pub fn write_pubrec_encoding_steps5(packet: &PubrecPacket, context: &EncodingContext, steps: &mut VecDeque<EncodingStep>) -> GneissResult<()> { unimplemented!() }
+#[verifier::external_body] pub fn write_pubrel_encoding_steps5(packet: &PubrelPacket, context: &EncodingContext, steps: &mut VecDeque<EncodingStep>) -> GneissResult<()> { unimplemented!() }
+#[verifier::external_body] pub fn write_pubcomp_encoding_steps5(packet: &PubcompPacket, context: &EncodingContext, steps: &mut VecDeque<EncodingStep>) -> GneissResult<()> { unimplemented!() }
+#[verifier::external_body] pub fn write_subscribe_encoding_steps5(packet: &SubscribePacket, context: &EncodingContext, steps: &mut VecDeque<EncodingStep>) -> GneissResult<()> { unimplemented!() }
+#[verifier::external_body] pub fn write_suback_encoding_steps5(packet: &SubackPacket, context: &EncodingContext, steps: &mut VecDeque<EncodingStep>) -> GneissResult<()> { unimplemented!() }
+#[verifier::external_body] pub fn write_unsubscribe_encoding_steps5(packet: &UnsubscribePacket, context: &EncodingContext, steps: &mut VecDeque<EncodingStep>) -> GneissResult<()> { unimplemented!() }
+#[verifier::external_body] pub fn write_unsuback_encoding_steps5(packet: &UnsubackPacket, context: &EncodingContext, steps: &mut VecDeque<EncodingStep>) -> GneissResult<()> { unimplemented!() }
+#[verifier::external_body] pub fn write_disconnect_encoding_steps5(packet: &DisconnectPacket, context: &EncodingContext, steps: &mut VecDeque<EncodingStep>) -> GneissResult<()> { unimplemented!() }
+#[verifier::external_body] pub fn write_auth_encoding_steps5(packet: &AuthPacket, context: &EncodingContext, steps: &mut VecDeque<EncodingStep>) -> GneissResult<()> { unimplemented!() }
+
+pub open spec fn wire5(pk: MqttPacket, res: OutboundAliasResolution) -> Option<Seq<u8>> {
+    match pk {
+        MqttPacket::Publish(p) => Some(publish5_bytes(p, res)),
+        MqttPacket::Pingreq(_) => Some(seq![0xC0u8, 0u8]),
+        _ => None,
+    }
+}
+pub open spec fn sendable5(pk: MqttPacket, res: OutboundAliasResolution) -> bool {
+    match pk { MqttPacket::Publish(p) => publish5_sendable(p, res), _ => true }
+}
+//@fn gneiss-mqtt/src/encode.rs write_encoding_steps5 props=C02,C17
+    requires sendable5(*mqtt_packet, context.outbound_alias_resolution),
+    ensures
+        wire5(*mqtt_packet, context.outbound_alias_resolution) is Some ==> r is Ok,
+        wire5(*mqtt_packet, context.outbound_alias_resolution) matches Some(bytes) ==> flat(final(steps)@, *mqtt_packet) == flat(old(steps)@, *mqtt_packet) + bytes,
+        (wire5(*mqtt_packet, context.outbound_alias_resolution) is Some && steps_wf(old(steps)@, *mqtt_packet)) ==> steps_wf(final(steps)@, *mqtt_packet),
+//@end
+
+impl Encoder {
+//@fn gneiss-mqtt/src/encode.rs Encoder::reset props=C02,C13
+    requires
+        context.protocol_version == ProtocolVersion::Mqtt311 ==> sendable311(*packet),
+        context.protocol_version == ProtocolVersion::Mqtt5 ==> sendable5(*packet, context.outbound_alias_resolution),
+    ensures
+        // MQTT 5 PUBLISH (and PINGREQ): the same, with the outbound alias resolution of the encoding context - the alias the resolver chose and
+        // the omission of the topic it decided are exactly what goes on the wire (C17)
+        (context.protocol_version == ProtocolVersion::Mqtt5 && wire5(*packet, context.outbound_alias_resolution) is Some) ==> {
+            &&& r is Ok
+            &&& flat(final(self).steps@, *packet) == wire5(*packet, context.outbound_alias_resolution)->Some_0
+            &&& steps_wf(final(self).steps@, *packet)
+        },
+        // MQTT 3.1.1: the pending steps denote exactly the packet's wire image - with Encoder::encode, that is what the transport is handed
+        (context.protocol_version == ProtocolVersion::Mqtt311 && wire311(*packet) is Some) ==> {
+            &&& r is Ok
+            &&& flat(final(self).steps@, *packet) == wire311(*packet)->Some_0
+            &&& steps_wf(final(self).steps@, *packet)
+        },
+//@@at after "self.steps.clear();"
+        proof { assert(flat(self.steps@, *packet) =~= Seq::<u8>::empty()); }
+//@end
+}
 
 } // verus!
 fn main() {}
